@@ -380,10 +380,11 @@ fn cpairs(v: &[(u64, u64)]) -> String {
 }
 
 /// Raw dump + coherence of the cached read paths, in a throw-away write transaction.
-fn dump(h: &mut Hist, txt: &mut String) -> String {
+fn dump(h: &mut Hist, txt: &mut String, panicked: bool) -> String {
     let mut wr = h.be.write().expect("write");
     let raw = hk::raw_dump(&mut wr).expect("raw dump");
-    let mut coh = true;
+    // an implementation panic inside the transaction is recorded as an incoherent outcome
+    let mut coh = !panicked;
     // index tables
     let mut idx: Vec<(u64, Vec<u64>)> = vec![];
     let mut rawmap: BTreeMap<String, Vec<u64>> = BTreeMap::new();
@@ -557,8 +558,12 @@ fn run_txn(
     ncalls: usize,
     txt: &mut String,
     first: bool,
+    clean: bool,
 ) -> TxnOut {
     let mut out = TxnOut { ops: vec![], ok: true, flags: BTreeSet::new() };
+    // in a clean history nothing may trigger the two known-finding classes: batches keep the
+    // entries unique after every single entry, and no lookup follows a removal in the same txn
+    let mut removed_something = false;
     for call in 0..ncalls {
         let k = if first && call == 0 { 100 } else { rng.below(100) };
         if k >= 94 {
@@ -625,7 +630,7 @@ fn run_txn(
             rng.shuffle(&mut ids);
             ids.truncate(rng.range(1, 3) as usize);
             let mut posts: Vec<(u64, Desc)> = vec![];
-            let shape = rng.below(10);
+            let shape = if clean { 9 } else { rng.below(10) };
             if shape < 2 && ids.len() >= 2 {
                 // swap the names (and external ids) of two live entries in one batch
                 let (a, b) = (ids[0], ids[1]);
@@ -677,6 +682,20 @@ fn run_txn(
             if downgrade || !world_uniq(&w2) || posts.iter().all(|(i, d)| world[i].d == *d) {
                 continue;
             }
+            if clean {
+                let mut w3 = world.clone();
+                let mut ok_seq = true;
+                for (i, d) in &posts {
+                    if let Some(s) = w3.get_mut(i) {
+                        s.d = d.clone();
+                    }
+                    ok_seq &= world_uniq(&w3);
+                }
+                if !ok_seq {
+                    continue;
+                }
+            }
+            removed_something = true;
             let pre: Vec<Arc<EntrySealedCommitted>> = posts.iter().map(|(i, _)| world[i].e.clone()).collect();
             let post: Vec<EntrySealedCommitted> = posts.iter().map(|(i, d)| build(d, cid, *i)).collect();
             let via_repl = rng.chance(1, 4);
@@ -733,6 +752,7 @@ fn run_txn(
             let i = *rng.pick(&cand);
             let e = world[&i].e.clone();
             let v = view(&e, layout, tabs);
+            removed_something = true;
             out.ops.push(capp("ODel", &[cn(i)]));
             out.ops.push(capp("OIdx", &[coview(&Some(v)), "None".into()]));
             txt.push_str(&format!(" purge#{}", i));
@@ -749,6 +769,9 @@ fn run_txn(
             }
         } else {
             // 1..3 lookups through the cached read path of the write transaction
+            if clean && removed_something {
+                continue;
+            }
             for _ in 0..rng.range(1, 3) {
                 let lk = match rng.below(8) {
                     0 | 1 | 2 => Lk::N2U(rng.below(NAMES.len() as u64) as usize),
@@ -900,7 +923,7 @@ fn scripted(sink: &mut Sink, name: &str, txns: Vec<Vec<SOp>>) {
             wr.commit().expect("commit");
             txt.push_str(" COMMIT");
         }
-        let d = dump(&mut h, &mut txt);
+        let d = dump(&mut h, &mut txt, false);
         // spell the name table out in the readable line
         {
             let mut wr = h.be.write().expect("write");
@@ -930,39 +953,74 @@ fn server_probes(sink: &mut Sink) {
     let ua = Uuid::from_u128(0xc03_a000_0000_0000_0000_0000_0000_0001u128);
     let ub = Uuid::from_u128(0xc03_a000_0000_0000_0000_0000_0000_0002u128);
     let idn = |u: Option<Uuid>| -> Option<u64> { u.map(|x| if x == ua { 1 } else if x == ub { 2 } else { 99 }) };
-    // kind 2: two groups exchange names in ONE internal_batch_modify (what a SCIM sync apply issues)
+    let mut cases: Vec<(String, String)> = vec![];
+    let r2 = std::panic::catch_unwind(std::panic::AssertUnwindSafe(|| -> (String, String) {
+    // kind 2: chained renames on a supplier (two committed transactions), applied on the consumer by ONE
+    // incremental replication run.  Two pairs with opposite uuid order so that one of them is applied
+    // "taker first".
     {
-        let qs = rt.block_on(setup_test(TestConfiguration::default()));
-        let mut wr = rt.block_on(qs.write(duration_from_epoch_now())).expect("write");
-        wr.internal_create(vec![mk("c03swapa", ua), mk("c03swapb", ub)]).expect("create");
-        wr.commit().expect("commit");
-        let mut wr = rt.block_on(qs.write(duration_from_epoch_now())).expect("write");
-        let r = wr.internal_batch_modify(
-            vec![
-                (ua, ModifyList::new_purge_and_set(Attribute::Name, Value::new_iname("c03swapb"))),
-                (ub, ModifyList::new_purge_and_set(Attribute::Name, Value::new_iname("c03swapa"))),
-            ]
-            .into_iter(),
-        );
-        let committed = r.is_ok() && wr.commit().is_ok();
-        let mut wr = rt.block_on(qs.write(duration_from_epoch_now())).expect("write");
-        // full scan: who carries which name now
-        let scan = |wr: &mut QueryServerWriteTransaction<'_>, n: &str| -> Option<Uuid> {
-            wr.internal_search(kanidmd_lib::filter!(f_eq(Attribute::Name, PartialValue::new_iname(n))))
-                .ok()
-                .and_then(|v| v.first().map(|e| e.get_uuid()))
+        use kanidmd_lib::testkit::setup_pair_test;
+        let (sa, sb) = rt.block_on(setup_pair_test(TestConfiguration::default()));
+        let mut t = duration_from_epoch_now() + Duration::from_secs(60);
+        {
+            let mut w = rt.block_on(sb.write(t)).expect("write");
+            let mut r = rt.block_on(sa.read()).expect("read");
+            let ctx = r.supplier_provide_refresh().expect("refresh ctx");
+            w.consumer_apply_refresh(ctx).expect("refresh");
+            drop(r);
+            w.commit().expect("commit");
+        }
+        let us: Vec<Uuid> = (1..=4).map(|i| Uuid::from_u128(0xc03_b000_0000_0000_0000_0000_0000_0000u128 + i)).collect();
+        let repl = |t: Duration| {
+            let mut w = rt.block_on(sb.write(t)).expect("write");
+            let mut r = rt.block_on(sa.read()).expect("read");
+            let range = w.consumer_get_state().expect("state");
+            let changes = r.supplier_provide_changes(range).expect("changes");
+            let res = w.consumer_apply_changes(changes).map(|_| ());
+            drop(r);
+            res.and_then(|()| w.commit())
         };
-        let exp = vec![idn(scan(&mut wr, "c03swapa")), idn(scan(&mut wr, "c03swapb"))];
-        let obs = vec![idn(wr.name_to_uuid("c03swapa").ok()), idn(wr.name_to_uuid("c03swapb").ok())];
+        t += Duration::from_secs(2);
+        {
+            let mut w = rt.block_on(sa.write(t)).expect("write");
+            w.internal_create(vec![mk("c03rx", us[0]), mk("c03ry", us[1]), mk("c03rp", us[2]), mk("c03rq", us[3])]).expect("create");
+            w.commit().expect("commit");
+        }
+        t += Duration::from_secs(2);
+        let r0 = repl(t);
+        for (u, n) in [(us[0], "c03rza"), (us[1], "c03rx"), (us[3], "c03rzb"), (us[2], "c03rq")] {
+            t += Duration::from_secs(2);
+            let mut w = rt.block_on(sa.write(t)).expect("write");
+            w.internal_modify_uuid(u, &ModifyList::new_purge_and_set(Attribute::Name, Value::new_iname(n))).expect("rename");
+            w.commit().expect("commit");
+        }
+        t += Duration::from_secs(2);
+        let r1 = repl(t);
+        t += Duration::from_secs(2);
+        let mut wr = rt.block_on(sb.write(t)).expect("write");
+        let idb = |u: Option<Uuid>| -> Option<u64> { u.map(|x| us.iter().position(|y| *y == x).map(|p| p as u64 + 1).unwrap_or(99)) };
+        let names = ["c03rx", "c03rq", "c03rza", "c03rzb", "c03ry", "c03rp"];
+        let mut exp = vec![];
+        let mut obs = vec![];
+        for n in names {
+            let sc = wr
+                .internal_search(kanidmd_lib::filter!(f_eq(Attribute::Name, PartialValue::new_iname(n))))
+                .ok()
+                .and_then(|v| v.first().map(|e| e.get_uuid()));
+            exp.push(idb(sc));
+            obs.push(idb(wr.name_to_uuid(n).ok()));
+        }
         drop(wr);
-        let verify = rt.block_on(qs.verify());
+        let verify = rt.block_on(sb.verify());
         let txt = format!(
-            "server batch-swap: internal_batch_modify[a.name:=c03swapb, b.name:=c03swapa] result={:?} committed={} scan(c03swapa,c03swapb)={:?} name_to_uuid={:?} verify_errors={}",
-            r, committed, exp, obs, verify.len()
+            "server replication-chain: supplier renames g1 c03rx->c03rza, g2 c03ry->c03rx, g4 c03rq->c03rzb, g3 c03rp->c03rq in 4 txns; one incremental run (first={:?} second={:?}); consumer scan{:?}={:?} name_to_uuid={:?} consumer verify_errors={}",
+            r0, r1, names, exp, obs, verify.len()
         );
-        sink.bump("server_probe");
-        sink.case(capp("CSrv", &[cn(2), clist(&exp, |x| copt(x, |v| cn(*v))), clist(&obs, |x| copt(x, |v| cn(*v)))]), txt, true);
+        (capp("CSrv", &[cn(2), clist(&exp, |x| copt(x, |v| cn(*v))), clist(&obs, |x| copt(x, |v| cn(*v)))]), txt)
     }
+    }));
+    cases.push(r2.unwrap_or_else(|_| (capp("CSrv", &[cn(0), "[None]".into(), "[]".into()]), "server replication-chain: PROBE PANICKED (an operation the unmodified server accepts was rejected)".into())));
+    let r1 = std::panic::catch_unwind(std::panic::AssertUnwindSafe(|| -> (String, String) {
     // kind 1: rename, then resolve the OLD name inside the same write transaction, commit
     {
         let qs = rt.block_on(setup_test(TestConfiguration::default()));
@@ -983,8 +1041,13 @@ fn server_probes(sink: &mut Sink) {
             "server stale-lookup: rename c03olda->c03newa; name_to_uuid(c03olda) in the same txn, after commit, name_to_uuid(c03newa): expected {:?} observed {:?} verify_errors={}",
             exp, obs, verify.len()
         );
+        (capp("CSrv", &[cn(1), clist(&exp, |x| copt(x, |v| cn(*v))), clist(&obs, |x| copt(x, |v| cn(*v)))]), txt)
+    }
+    }));
+    cases.push(r1.unwrap_or_else(|_| (capp("CSrv", &[cn(0), "[None]".into(), "[]".into()]), "server stale-lookup: PROBE PANICKED (an operation the unmodified server accepts was rejected)".into())));
+    for (c, t) in cases {
         sink.bump("server_probe");
-        sink.case(capp("CSrv", &[cn(1), clist(&exp, |x| copt(x, |v| cn(*v))), clist(&obs, |x| copt(x, |v| cn(*v)))]), txt, true);
+        sink.case(c, t, true);
     }
 }
 
@@ -1026,6 +1089,9 @@ recycle/revive/purge/uuid change AND contains a reindex after the first transact
     for hid in 0..n_hist {
         let mut hr = rng.fork();
         let rng = &mut hr;
+        // 3 of 4 histories are clean (cannot trigger the known-finding classes K1 / K2)
+        let clean = hid % 4 != 3;
+        sink.bump(if clean { "clean_history" } else { "anything_goes_history" });
         let layout = gen_layout(rng);
         let cfg = BackendConfig::new(None, 1, FsType::Generic, Some(if rng.chance(1, 3) { 64 } else { 2048 }));
         let be = Backend::new(cfg, hk::idxkeys(layout.clone()), false).expect("backend");
@@ -1045,7 +1111,7 @@ recycle/revive/purge/uuid change AND contains a reindex after the first transact
         };
         let n_txn = if args.thorough { rng.range(6, 40) } else { rng.range(5, 14) } as usize;
         let mut txns = vec![];
-        let mut txt = format!("hist {}:", hid);
+        let mut txt = format!("hist {}{}:", hid, if clean { " clean" } else { "" });
         let mut flags: BTreeSet<&'static str> = BTreeSet::new();
         let mut nops = 0usize;
         for t in 0..n_txn {
@@ -1056,9 +1122,9 @@ recycle/revive/purge/uuid change AND contains a reindex after the first transact
             let do_commit = t == 0 || rng.chance(85, 100);
             let ncalls = rng.range(1, 4) as usize;
             txt.push_str(&format!(" | T{}", t));
-            let out = {
+            let res = std::panic::catch_unwind(std::panic::AssertUnwindSafe(|| {
                 let mut wr = h.be.write().expect("write");
-                let out = run_txn(&mut wr, &mut h.world, &mut h.layout, &mut h.tabs, &cid, rng, ncalls, &mut txt, t == 0);
+                let out = run_txn(&mut wr, &mut h.world, &mut h.layout, &mut h.tabs, &cid, rng, ncalls, &mut txt, t == 0, clean);
                 if out.ok && do_commit {
                     wr.commit().expect("commit");
                     txt.push_str(" COMMIT");
@@ -1067,7 +1133,14 @@ recycle/revive/purge/uuid change AND contains a reindex after the first transact
                     txt.push_str(" ABORT");
                 }
                 out
-            };
+            }));
+            let panicked = res.is_err();
+            let out = res.unwrap_or_else(|e| {
+                let msg = e.downcast_ref::<String>().cloned().or_else(|| e.downcast_ref::<&str>().map(|s| s.to_string())).unwrap_or_default();
+                txt.push_str(&format!(" IMPLEMENTATION-PANIC({})", msg));
+                sink.bump("implementation_panic");
+                TxnOut { ops: vec![], ok: false, flags: BTreeSet::new() }
+            });
             let committed = out.ok && do_commit;
             if committed {
                 for f in &out.flags {
@@ -1085,7 +1158,7 @@ recycle/revive/purge/uuid change AND contains a reindex after the first transact
             }
             nops += out.ops.len();
             sink.bump("txn");
-            let d = dump(&mut h, &mut txt);
+            let d = dump(&mut h, &mut txt, panicked);
             txns.push(capp("Txn", &[clist_s(&out.ops), cbool(out.ok), cbool(do_commit), d]));
         }
         sink.add_stat("model_ops", nops as u64);
